@@ -128,9 +128,11 @@ type largeCase struct {
 }
 
 func (s *space) large(c *mc.Ctx) {
-	sizes := []int{189, 190, 191, 500, 800} // quick: both sides of the Straus/Pippenger switch, and the two window switches themselves
+	// quick: BOTH sides of the Straus/Pippenger switch (190 terms; 191 for the expanded routine) and of the two Pippenger
+	// window switches (500, 800) in every configuration (T14), plus 200 for the uneven static/dynamic mixes
+	sizes := []int{189, 190, 191, 200, 499, 500, 799, 800}
 	if c.Thorough {
-		sizes = []int{189, 190, 191, 499, 500, 501, 799, 800, 801}
+		sizes = []int{189, 190, 191, 200, 499, 500, 501, 799, 800, 801}
 	}
 	nmax := sizes[len(sizes)-1]
 	// reference side: m_i, P_i (Edwards list) and Q_i (ristretto list)
@@ -212,9 +214,9 @@ func (s *space) large(c *mc.Ctx) {
 	for _, n := range sizes {
 		var wsel []uint
 		switch {
-		case n < 400:
+		case n < 500:
 			wsel = []uint{6}
-		case n < 700:
+		case n < 800:
 			wsel = []uint{7}
 		default:
 			wsel = []uint{8}
@@ -223,7 +225,20 @@ func (s *space) large(c *mc.Ctx) {
 			wsel = []uint{6, 7, 8}
 		}
 		vecsBy[n] = s.vectors(c.Thorough, wsel)
-		if !c.Thorough && n >= 400 {
+		if !c.Thorough && (n == 200 || n == 499 || n == 799) {
+			// quick: a 6-vector core on the near side of the window switches and at 200
+			var sel []vec
+			for _, v := range vecsBy[n] {
+				switch v.name {
+				case "all-(2^255-1)", "generic-unreduced", "core-cycle", "small-integers":
+					sel = append(sel, v)
+				}
+				if len(v.name) > 6 && v.name[:6] == "radix2" && (v.name[len(v.name)-13:] == "negative-ramp" || v.name[len(v.name)-14:] == "all-digits-min") {
+					sel = append(sel, v)
+				}
+			}
+			vecsBy[n] = sel
+		} else if !c.Thorough && n >= 400 {
 			// quick: a 10-vector core at the window switches (extremes, generic, cycles, zeros interleaved, bucket ramps)
 			var sel []vec
 			for _, v := range vecsBy[n] {
@@ -322,7 +337,7 @@ func (s *space) large(c *mc.Ctx) {
 		checkPt(w, "EdwardsPoint.MultiscalarMulVartime/alias", func() *curve.EdwardsPoint { return r.MultiscalarMulVartime(scs, lp2) }, want, d("p.MultiscalarMulVartime(.., p, ..)"), cas)
 		r, lp2 = aliased(lp, (i*7)%n)
 		checkPt(w, "EdwardsPoint.MultiscalarMul/alias", func() *curve.EdwardsPoint { return r.MultiscalarMul(scs, lp2) }, want, d("p.MultiscalarMul(.., p, ..)"), cas)
-		for _, sp := range splits(n) {
+		for _, sp := range largeSplits(n) {
 			var ss, ds []*scalar.Scalar
 			var spn []*curve.ExpandedEdwardsPoint
 			var dpn []*curve.EdwardsPoint
@@ -393,7 +408,7 @@ func (s *space) large(c *mc.Ctx) {
 			}
 			checkR(w, "RistrettoPoint.MultiscalarMulVartime/alias", func() *curve.RistrettoPoint { return rr.MultiscalarMulVartime(scs, l2) }, rwant, d("ristretto p.MultiscalarMulVartime(.., p, ..)"), cas)
 		}
-		for _, sp := range splits(n)[:3] {
+		for _, sp := range append(splits(n)[:3], largeSplits(n)[len(splits(n)):]...) {
 			var ss, ds []*scalar.Scalar
 			var spn []*curve.ExpandedRistrettoPoint
 			var dpn []*curve.RistrettoPoint
@@ -426,4 +441,22 @@ func (s *space) large(c *mc.Ctx) {
 			c.Require(fmt.Sprintf("msm-large/%s/n=%d", r, n), nv)
 		}
 	}
+}
+
+// largeSplits: the five generic static/dynamic patterns plus uneven contiguous mixes (90 static + the rest dynamic, i.e.
+// 90+99, 90+100, 90+101, 90+110, ...; 120+80 at n = 200; the rest static + 90 dynamic) - both sets non-empty and different.
+func largeSplits(n int) [][]bool {
+	out := splits(n)
+	mk := func(f func(t int) bool) []bool {
+		b := make([]bool, n)
+		for t := range b {
+			b[t] = f(t)
+		}
+		return b
+	}
+	out = append(out, mk(func(t int) bool { return t < 90 }), mk(func(t int) bool { return t >= 90 }))
+	if n == 200 {
+		out = append(out, mk(func(t int) bool { return t < 120 }))
+	}
+	return out
 }
